@@ -4,6 +4,9 @@ Workload: 1-4 functions x 1-3 @state_trigger decorators (expressions, lists/sets
 any-change names, watch=, kwargs=) over 2-4 entities; histories of create / change
 value / change attribute / re-set same / delete, one at a time, in bursts within one
 loop pass or a few passes apart; bodies optionally sleep so earlier runs are alive.
+A share of the scripts also uses calls inside the expressions (a method of the state value such as
+``d.e.as_int()`` / ``d.e.lower()``, the pyscript function ``state.get('d.e')``), an attribute whose
+name is also the name of a method of str (``count``), or an empty ``watch=`` list.
 
 Oracle: the state_changed events HA actually emitted are the history; for every
 (event, decorator) the reference semantics (sim.expr + documented watch rules) say
@@ -13,6 +16,7 @@ the HA context id they receive.
 
 from __future__ import annotations
 
+import itertools
 import random
 
 from .. import expr as X
@@ -24,26 +28,217 @@ LEVEL = "exploration"
 RULE = (
     "seeded generation of (script with 1-4 functions x 1-3 @state_trigger decorators, timed history of "
     "<=25/40 set/remove ops incl. bursts); distinct = scenario digest; non-trivial = at least one expected "
-    "run and at least one evaluated-but-false event"
+    "run and at least one evaluated-but-false event; 25% of the scripts get call atoms (method of the value, "
+    "state.get) in place of 35% of their atoms, 15% name an attribute like a method of str, 12% of the watch= "
+    "lists are empty"
 )
 ASSUMPTIONS = [
     "HA's state machine decides which async_set calls emit state_changed (observed on the real bus, not modelled)",
     "asyncio FIFO ready queue is kept; interleavings explored are stimulus timing, bursts, stalls, cost, hash order",
     "order is judged per decorator (each decorator is an independent trigger), not across decorators",
     "an expression that mentions X.old.attr but not X.attr: whether an attr-only change evaluates it is don't-care",
+    "a method call on a state value (d.e.as_int(), d.e.lower()) mentions the state variable d.e: its value is watched "
+    "and read; only calls on current values (not on d.e.old) are generated",
+    "state.get('d.e') inside an expression does not make d.e watched (reference.rst, watch=); it reads d.e when the "
+    "expression is evaluated: the value right after the delivered change or after any later change of the same burst "
+    "(0.2 s / 16 loop passes) - if those differ in truth the event is don't-care; an undefined name raises (false)",
+    "an attribute whose name is also a method of str (count) and that neither the old nor the new value has: "
+    "reference.rst says both 'undefined attributes read as None' and 'the value is a str with its methods', so for "
+    "exactly that case it is don't-care whether the name reads as None or as a (non-None) method of the value and "
+    "whether a change of the value counts as a change of the name; any-change names keep the attribute meaning",
+    "watch=[] (or set()): nothing is watched, the expression is never evaluated",
 ]
 TIERS = {
     "quick": {"runs": 2400, "chunk": 75, "max_ops": 25},
     "thorough": {"runs": 60000, "chunk": 250, "max_ops": 40},
 }
 REACH_PROBES = ["burst3", "run_overlaps_event", "attr_only_update_value_watched", "delete_event",
-                "expr_raised", "create_event", "same_set_no_event", "dontcare_eval"]
+                "expr_raised", "create_event", "same_set_no_event", "dontcare_eval",
+                "method_call_attr_only_event", "method_call_expected_run", "state_get_evaluated",
+                "state_get_expected_run", "state_get_timing_dontcare", "method_named_attr_absent_event",
+                "method_named_attr_ambiguous", "empty_watch_expr_names_changed"]
 SHRINK_LISTS = [["ops"], ["spec", "funcs"], ["spec", "funcs", "*", "decs"]]
 
 # one entity id is a string prefix of another, and so is one attribute name: names must be told apart as whole
 # dotted components, not by prefix
+GET_WINDOW_ITERS = 16
+GET_WINDOW_S = 0.2
 ENT_POOL = ["pyscript.e", "pyscript.e1", "sensor.s2", "light.l3"]
 ATTRS = ["a", "a1"]
+
+
+# ------------------------------------------------------------------ expressions with calls (local extension of sim.expr)
+# ["meth", ["v", ent], name, op, rhs]   ->  ent.name() op rhs      (a method of the state value)
+# ["get", [ent] | [ent, attr], op, rhs] ->  state.get('ent[.attr]') op rhs
+METHOD_ATTR = "count"  # an attribute name that is also the name of a method of str
+STATEVAL_METHODS = {"as_float", "as_int", "as_bool", "as_round", "as_datetime", "is_unknown", "is_unavailable",
+                    "has_value"}
+
+
+class _Method:
+    """Stands for 'a bound method of the state value': not None, equal to nothing."""
+
+    def __repr__(self):
+        return "<method>"
+
+
+_METHOD = _Method()
+
+
+def is_method_name(attr: str) -> bool:
+    return attr in STATEVAL_METHODS or callable(getattr(str, attr, None))
+
+
+def e_src(node: list) -> str:
+    kind = node[0]
+    if kind == "meth":
+        return f"{node[1][1]}.{node[2]}() {node[3]} {node[4]!r}"
+    if kind == "get":
+        return f"state.get({'.'.join(node[1])!r}) {node[2]} {node[3]!r}"
+    if kind in ("and", "or"):
+        return f"({e_src(node[1])} {kind} {e_src(node[2])})"
+    if kind == "not":
+        return f"(not {e_src(node[1])})"
+    return X.to_src(node)
+
+
+def e_atoms(node: list, out: list | None = None) -> list[list]:
+    """All atoms of the expression, in source order."""
+    if out is None:
+        out = []
+    if node[0] in ("and", "or"):
+        e_atoms(node[1], out)
+        e_atoms(node[2], out)
+    elif node[0] == "not":
+        e_atoms(node[1], out)
+    else:
+        out.append(node)
+    return out
+
+
+def e_refs(node: list) -> list[list]:
+    """The refs to state variables the expression mentions (a method call mentions the value; state.get nothing)."""
+    out = []
+    for atom in e_atoms(node):
+        if atom[0] == "meth":
+            out.append(atom[1])
+        elif atom[0] != "get":
+            X.refs(atom, out)
+    return out
+
+
+def e_evaluate(node: list, look, getter):
+    """Value of the expression; ``look(ref)`` reads a state variable ref (["meth", ent, name] = the value a
+    method is called on), ``getter(target)`` is state.get; both may raise X.EvalError."""
+    kind = node[0]
+    if kind == "meth":
+        base = look(["meth", node[1][1], node[2]])
+        if base is None:
+            raise X.EvalError("method of an undefined variable")
+        if node[2] == "as_int":
+            try:
+                val = int(base)
+            except (TypeError, ValueError) as exc:
+                raise X.EvalError(type(exc).__name__) from exc
+        else:
+            val = getattr(base, node[2])()
+        return X._REL[node[3]](val, node[4])  # pylint: disable=protected-access
+    if kind == "get":
+        return X._REL[node[2]](getter(node[1]), node[3])  # pylint: disable=protected-access
+    if kind == "and":
+        left = e_evaluate(node[1], look, getter)
+        return e_evaluate(node[2], look, getter) if left else left
+    if kind == "or":
+        left = e_evaluate(node[1], look, getter)
+        return left if left else e_evaluate(node[2], look, getter)
+    if kind == "not":
+        return not e_evaluate(node[1], look, getter)
+    return X.evaluate(node, None, look)
+
+
+def e_truthy(node: list, look, getter) -> tuple[bool, bool]:
+    try:
+        return bool(e_evaluate(node, look, getter)), False
+    except X.EvalError:
+        return False, True
+
+
+def _gen_call_atom(rng: random.Random, ents: list[str], attrs: list[str]) -> list:
+    ent = rng.choice(ents)
+    roll = rng.random()
+    if roll < 0.5:
+        if attrs and rng.random() < 0.3:
+            return ["get", [ent, rng.choice(attrs)], rng.choice(["==", "!="]), rng.choice(X.ATTR_VALUES)]
+        return ["get", [ent], rng.choice(["==", "==", "!="]), rng.choice(X.STATE_VALUES)]
+    if roll < 0.8:
+        return ["meth", ["v", ent], "as_int", rng.choice(["<", "<=", ">", ">=", "=="]), rng.choice([0, 1, 2])]
+    meth = rng.choice(["lower", "upper"])
+    return ["meth", ["v", ent], meth, rng.choice(["==", "==", "!="]), getattr(rng.choice(X.STATE_VALUES), meth)()]
+
+
+def _inject_calls(node: list, rng: random.Random, ents: list[str], attrs: list[str], rate: float) -> list:
+    if node[0] in ("and", "or"):
+        return [node[0], _inject_calls(node[1], rng, ents, attrs, rate), _inject_calls(node[2], rng, ents, attrs, rate)]
+    if node[0] == "not":
+        return ["not", _inject_calls(node[1], rng, ents, attrs, rate)]
+    return _gen_call_atom(rng, ents, attrs) if rng.random() < rate else node
+
+
+def _rename_attr(scn: dict, old: str, new: str) -> None:
+    """Rename an attribute in every place of a scenario where attribute names occur."""
+
+    def dotted(name: str) -> str:
+        parts = name.split(".")
+        return ".".join(parts[:2] + [new]) if len(parts) == 3 and parts[2] == old else name
+
+    def tree(node: list) -> list:
+        if node[0] in ("and", "or"):
+            return [node[0], tree(node[1]), tree(node[2])]
+        if node[0] == "not":
+            return ["not", tree(node[1])]
+        if node[0] == "const":
+            return node
+        if node[0] == "get":
+            return ["get", [new if (i == 1 and p == old) else p for i, p in enumerate(node[1])]] + node[2:]
+        ref = node[1]
+        if ref[0] in ("attr", "oldattr") and ref[2] == old:
+            return [node[0], [ref[0], ref[1], new]] + node[2:]
+        return node
+
+    spec = scn["spec"]
+    spec["attrs"] = [new if a == old else a for a in spec["attrs"]]
+    for func in spec["funcs"]:
+        for dec in func["decs"]:
+            for arg in dec["args"]:
+                if arg["t"] == "any":
+                    arg["name"] = dotted(arg["name"])
+                else:
+                    arg["e"] = tree(arg["e"])
+            if dec.get("watch") is not None:
+                dec["watch"] = [dotted(n) for n in dec["watch"]]
+    for op in scn["ops"]:
+        if op.get("a"):
+            op["a"] = {(new if k == old else k): v for k, v in op["a"].items()}
+    for val in scn["cfg"]["initial_states"].values():
+        val[1] = {(new if k == old else k): v for k, v in val[1].items()}
+
+
+def _extend(scn: dict, rng: random.Random) -> dict:
+    """Round-5 situations, drawn from their own stream so that the rest of the scenario is what it was."""
+    spec = scn["spec"]
+    if rng.random() < 0.25:
+        for func in spec["funcs"]:
+            for dec in func["decs"]:
+                for arg in dec["args"]:
+                    if arg["t"] == "expr":
+                        arg["e"] = _inject_calls(arg["e"], rng, spec["ents"], spec["attrs"], 0.35)
+    for func in spec["funcs"]:
+        for dec in func["decs"]:
+            if dec.get("watch") is not None and rng.random() < 0.12:
+                dec["watch"] = []
+    if spec["attrs"] and rng.random() < 0.15:
+        _rename_attr(scn, spec["attrs"][-1], METHOD_ATTR)
+    return scn
 
 
 # ------------------------------------------------------------------ generation
@@ -120,14 +315,15 @@ def gen(rng: random.Random, tier: str) -> dict:
                 op.pop("passes", None)
                 op["dt"] = 0.25 * rng.randint(1, 4)
         ops.append(op)
-    return {"cfg": cfg, "spec": {"ents": ents, "attrs": attrs, "funcs": funcs, "steer": steer}, "ops": ops}
+    scn = {"cfg": cfg, "spec": {"ents": ents, "attrs": attrs, "funcs": funcs, "steer": steer}, "ops": ops}
+    return _extend(scn, random.Random(rng.getrandbits(48)))
 
 
 # ------------------------------------------------------------------ rendering
 def _dec_src(dec: dict) -> str:
     items = []
     for arg in dec["args"]:
-        items.append(arg["name"] if arg["t"] == "any" else X.to_src(arg["e"]))
+        items.append(arg["name"] if arg["t"] == "any" else e_src(arg["e"]))
     if dec["group"] == "plain" or not items:
         pos = ", ".join(repr(s) for s in items)
     elif dec["group"] == "list":
@@ -137,7 +333,7 @@ def _dec_src(dec: dict) -> str:
     kw = []
     if dec.get("watch") is not None:
         if dec.get("watch_as") == "set":
-            kw.append("watch={" + ", ".join(repr(s) for s in dec["watch"]) + "}")
+            kw.append("watch={" + ", ".join(repr(s) for s in dec["watch"]) + "}" if dec["watch"] else "watch=set()")
         else:
             kw.append(f"watch={dec['watch']!r}")
     kw.append(f"kwargs={dec['kwargs']!r}")
@@ -247,7 +443,21 @@ def _state(val):
     return None if val is None else val[0]
 
 
-def any_match(name: str, ent: str, old, new) -> bool:
+def _has(val, attr) -> bool:
+    return val is not None and attr in val[1]
+
+
+def _attr_m(val, attr):
+    """Explanatory semantics: a name that is not an attribute of the value but a method of it reads as the
+    method; two methods are never equal."""
+    if val is None:
+        return None
+    if attr in val[1]:
+        return val[1][attr]
+    return _Method() if is_method_name(attr) else None
+
+
+def any_match(name: str, ent: str, old, new, method_always: bool = False) -> bool:
     parts = name.split(".")
     if f"{parts[0]}.{parts[1]}" != ent:
         return False
@@ -256,11 +466,13 @@ def any_match(name: str, ent: str, old, new) -> bool:
     if parts[2] == "*":
         keys = set(old[1] if old else {}) | set(new[1] if new else {})
         return any(_attr(old, k) != _attr(new, k) for k in keys)
+    if method_always:
+        return _attr_m(old, parts[2]) != _attr_m(new, parts[2])
     return _attr(old, parts[2]) != _attr(new, parts[2])
 
 
-def watched_changed(names: set[str], ent: str, old, new) -> bool:
-    for name in names:
+def watched_changed(names: set[str], ent: str, old, new, reading: str = "N", method_always: bool = False) -> bool:
+    for name in sorted(names):
         parts = name.split(".")
         if len(parts) < 2 or len(parts) > 3:
             continue
@@ -271,27 +483,109 @@ def watched_changed(names: set[str], ent: str, old, new) -> bool:
                 return True
         elif parts[2] == "*":
             continue
+        elif method_always:
+            if _attr_m(old, parts[2]) != _attr_m(new, parts[2]):
+                return True
+        elif reading == "M" and is_method_name(parts[2]) and not _has(old, parts[2]) and not _has(new, parts[2]):
+            # read as a method of the value: the value is what is mentioned
+            if _state(old) != _state(new):
+                return True
         elif _attr(old, parts[2]) != _attr(new, parts[2]):
             return True
     return False
 
 
-def decide(dec: dict, ent: str, old, new, model: dict, future: dict | None = None,
-           notified: set | None = None, watch_raise: bool = False) -> tuple[str, bool]:
-    """Return (verdict, raised): verdict in must / no / may.
+def dec_exprs(dec: dict) -> list[list]:
+    return [a["e"] for a in dec["args"] if a["t"] == "expr"]
 
-    The reference semantics are the defaults.  ``future``/``notified`` and ``watch_raise`` switch on
-    *explanatory* alternative semantics that are only used to label a mismatch (never to excuse one):
+
+def dec_forms(dec: dict, ent: str | None = None) -> list[str]:
+    """Which of the special forms the decorator uses (restricted to names of ``ent`` if given)."""
+    forms = set()
+    for arg in dec["args"]:
+        if arg["t"] == "any":
+            parts = arg["name"].split(".")
+            if len(parts) == 3 and is_method_name(parts[2]) and ent in (None, ".".join(parts[:2])):
+                forms.add("method_named_attr")
+            continue
+        for atom in e_atoms(arg["e"]):
+            if atom[0] == "get":
+                forms.add("state_get")
+                if len(atom[1]) == 2 and is_method_name(atom[1][1]) and ent in (None, atom[1][0]):
+                    forms.add("method_named_attr")
+            elif atom[0] == "meth":
+                if ent in (None, atom[1][1]):
+                    forms.add("method_call")
+            elif atom[0] != "const" and atom[1][0] in ("attr", "oldattr") and is_method_name(atom[1][2]):
+                if ent in (None, atom[1][1]):
+                    forms.add("method_named_attr")
+    for name in dec.get("watch") or []:
+        parts = name.split(".")
+        if len(parts) == 3 and is_method_name(parts[2]) and ent in (None, ".".join(parts[:2])):
+            forms.add("method_named_attr")
+    return sorted(forms)
+
+
+def decide(dec: dict, ent: str, old, new, model: dict, **kwargs) -> tuple[str, bool]:
+    return decide_full(dec, ent, old, new, model, **kwargs)[:2]
+
+
+def decide_full(dec: dict, ent: str, old, new, model: dict, future: dict | None = None,
+                notified: set | None = None, watch_raise: bool = False, gmodels: list | None = None,
+                method_always: bool = False, get_raises: bool = False, unnotified_method_none: bool = False,
+                info: dict | None = None) -> tuple[str, bool, bool]:
+    """Return (verdict, raised, evaluated): verdict in must / no / may.
+
+    Combines the readings the documentation leaves open (see ASSUMPTIONS): the two readings of an absent
+    attribute named like a method of str, and the instants at which state.get() may read (``gmodels``: entity
+    values right after this change and after the later changes of the same burst).  They give "may" when they
+    disagree.  The other keyword arguments switch on *explanatory* alternative semantics that are only used to
+    label a mismatch (never to excuse one), see decide_one.
+    """
+    forms = dec_forms(dec)
+    readings = ["N", "M"] if "method_named_attr" in forms else ["N"]
+    after = dict(model)
+    if new is None:
+        after.pop(ent, None)
+    else:
+        after[ent] = new
+    gms = [after]
+    if "state_get" in forms and gmodels:
+        gms = gmodels
+    results = []
+    for reading in readings:
+        for gmodel in gms:
+            results.append(decide_one(dec, ent, old, new, model, reading, gmodel, future=future, notified=notified,
+                                      watch_raise=watch_raise, method_always=method_always, get_raises=get_raises,
+                                      unnotified_method_none=unnotified_method_none))
+    verdicts = {r[0] for r in results}
+    if info is not None:
+        info["readings_differ"] = len({r[0] for r in results[:: len(gms)]}) > 1
+        info["gets_differ"] = len({r[0] for r in results[: len(gms)]}) > 1
+    verdict = verdicts.pop() if len(verdicts) == 1 else "may"
+    return verdict, any(r[1] for r in results), any(r[2] for r in results)
+
+
+def decide_one(dec: dict, ent: str, old, new, model: dict, reading: str, gmodel: dict, future: dict | None = None,
+               notified: set | None = None, watch_raise: bool = False, method_always: bool = False,
+               get_raises: bool = False, unnotified_method_none: bool = False) -> tuple[str, bool, bool]:
+    """The reference semantics are the defaults.  ``future``/``notified``, ``watch_raise``, ``method_always`` and
+    ``get_raises`` switch on explanatory alternative semantics:
     - future: another variable that has not been notified since the trigger started (or that is not
       subscribed at all because watch= leaves it out) is read when the expression is evaluated, i.e.
       possibly after later changes of the same burst;
     - watch_raise: with watch=, a name of the expression that is not listed in watch and whose value
-      is undefined raises instead of reading as None.
+      is undefined raises instead of reading as None;
+    - method_always: a watched name d.e.x whose x is (also) a method of the value counts as changed at every
+      event of d.e at which x is not an attribute of both values (methods never compare equal);
+    - get_raises: without watch=, a dotted pyscript function (state.get) in the expression is not callable;
+    - unnotified_method_none: without watch=, a method of str (lower) of another variable that has not been
+      notified since the trigger started is not callable.
     """
     anys = [a["name"] for a in dec["args"] if a["t"] == "any"]
-    exprs = [a["e"] for a in dec["args"] if a["t"] == "expr"]
-    if any(any_match(n, ent, old, new) for n in anys):
-        return "must", False
+    exprs = dec_exprs(dec)
+    if any(any_match(n, ent, old, new, method_always) for n in anys):
+        return "must", False, False
     if dec.get("watch") is not None:
         strict = set(dec["watch"])
         loose = set(strict)
@@ -299,18 +593,22 @@ def decide(dec: dict, ent: str, old, new, model: dict, future: dict | None = Non
         strict = set(anys)
         loose = set(anys)
         for tree in exprs:
-            for ref in X.refs(tree):
+            for atom in e_atoms(tree):
+                if atom[0] == "meth" and method_always:
+                    strict.add(f"{atom[1][1]}.{atom[2]}")
+                    loose.add(f"{atom[1][1]}.{atom[2]}")
+            for ref in e_refs(tree):
                 if ref[0] == "oldattr":
                     loose.add(f"{ref[1]}.{ref[2]}")
                 else:
                     strict.add(X.ref_src(ref))
                     loose.add(X.ref_src(ref))
-    must_eval = watched_changed(strict, ent, old, new)
-    may_eval = must_eval or watched_changed(loose, ent, old, new)
+    must_eval = watched_changed(strict, ent, old, new, reading, method_always)
+    may_eval = must_eval or watched_changed(loose, ent, old, new, reading, method_always)
     if not may_eval:
-        return "no", False
+        return "no", False, False
     if not exprs:
-        return "no", False
+        return "no", False, False
     watch_ents = None
     if dec.get("watch") is not None:
         watch_ents = {".".join(n.split(".")[:2]) for n in dec["watch"]}
@@ -324,13 +622,36 @@ def decide(dec: dict, ent: str, old, new, model: dict, future: dict | None = Non
         """In the alternative semantics: is this entity read when the expression is evaluated?"""
         return name != ent and (name not in (notified or ()) or (watch_ents is not None and name not in watch_ents))
 
-    look = None
+    def as_read(ref, val):
+        """The open reading of an absent attribute that is named like a method of str."""
+        if val is None and reading == "M" and ref[0] in ("attr", "oldattr") and is_method_name(ref[2]):
+            if env("v" if ref[0] == "attr" else "old", ref[1]) is not None:
+                return _METHOD
+        return val
+
+    def getter(target):
+        if get_raises and dec.get("watch") is None:
+            raise X.EvalError("state.get is None")
+        val = gmodel.get(target[0])
+        if val is None:
+            raise X.EvalError("NameError")
+        if len(target) == 1:
+            return val[0]
+        if target[1] not in val[1]:
+            if reading == "M" and is_method_name(target[1]):
+                return _METHOD
+            raise X.EvalError("AttributeError")
+        return val[1][target[1]]
+
+    def look_ref(ref):
+        return X._lookup(ref, env)  # pylint: disable=protected-access
+
     if future is not None or watch_raise:
-        def look(ref):
+        def look_ref(ref):  # noqa: F811  pylint: disable=function-redefined
             kind, name = ref[0], ref[1]
-            dotted = X.ref_src(ref)
+            dotted = ref[3] if len(ref) > 3 else X.ref_src(ref)
             unlisted = (watch_raise and dec.get("watch") is not None and dotted not in dec["watch"]
-                        and not (name == ent and kind in ("v", "old")))
+                        and not (name == ent and kind in ("v", "old") and len(ref) <= 3))
             if kind in ("v", "attr") and future is not None and deferred(name) and not unlisted:
                 snap = model.get(name)
                 if snap is None or (kind == "attr" and ref[2] not in snap[1]):
@@ -342,7 +663,8 @@ def decide(dec: dict, ent: str, old, new, model: dict, future: dict | None = Non
             if unlisted:
                 # not pre-set by the snapshot: resolved when evaluated, undefined raises
                 # (an unlisted attribute of the changed entity itself is also resolved when evaluated)
-                src = future if (future is not None and kind in ("v", "attr") and not (name == ent and kind == "v")) else None
+                src = future if (future is not None and kind in ("v", "attr")
+                                 and not (name == ent and kind == "v" and len(ref) <= 3)) else None
                 base = env("v" if kind in ("v", "attr") else "old", name) if src is None else src.get(name)
                 if kind in ("old", "oldattr") and name != ent:
                     raise X.EvalError("undefined .old of unlisted name")
@@ -353,19 +675,28 @@ def decide(dec: dict, ent: str, old, new, model: dict, future: dict | None = Non
                         raise X.EvalError("undefined attribute of unlisted name")
                     return base[1][ref[2]]
                 return base[0]
-            return X._lookup(ref, env)  # pylint: disable=protected-access
+            return X._lookup(ref[:3], env)  # pylint: disable=protected-access
+
+    def look(ref):
+        if ref[0] == "meth":
+            if (unnotified_method_none and dec.get("watch") is None and ref[2] not in STATEVAL_METHODS
+                    and ref[1] != ent and ref[1] not in (notified or ())):
+                raise X.EvalError("method is None")
+            # the value the method is called on; the name pyscript knows it by is d.e.method
+            return look_ref(["v", ref[1], None, f"{ref[1]}.{ref[2]}"])
+        return as_read(ref, look_ref(ref))
 
     raised = False
     truth = False
     for tree in exprs:  # any([...]) evaluates every element; an exception in any makes the whole false
-        val, rsd = X.truthy(tree, env, look)
+        val, rsd = e_truthy(tree, look, getter)
         raised = raised or rsd
         truth = truth or val
     if raised:
         truth = False
     if must_eval:
-        return ("must" if truth else "no"), raised
-    return ("may" if truth else "no"), raised
+        return ("must" if truth else "no"), raised, True
+    return ("may" if truth else "no"), raised, True
 
 
 # ------------------------------------------------------------------ run + oracle
@@ -430,6 +761,14 @@ def oracle(w: World, scn: dict):
                 break
             futs.append(later["after"])
         ev["futures"] = futs
+        # instants at which a state.get() of the expression may read: from right after this change to the
+        # end of the burst it belongs to
+        gfuts = [ev["after"]]
+        for later in events[i + 1 :]:
+            if later["iter"] - ev["iter"] > GET_WINDOW_ITERS and later["vt"] - ev["vt"] >= GET_WINDOW_S:
+                break
+            gfuts.append(later["after"])
+        ev["gfutures"] = gfuts
     by_ctx = {ev["ctx"]: ev for ev in events}
     # observed runs
     obs: dict = {}
@@ -473,10 +812,19 @@ def oracle(w: World, scn: dict):
                                        "t": mark["t"]})
                 last_n = max(last_n, evn)
             for ev in events:
-                verdict, raised = decide(dec, ev["ent"], ev["old"], ev["new"], ev["model"])
+                info: dict = {}
+                verdict, raised, evaluated = decide_full(dec, ev["ent"], ev["old"], ev["new"], ev["model"],
+                                                         gmodels=ev["gfutures"], info=info)
                 if raised:
                     w.probe("expr_raised")
                 got = seen.get(ev["n"], [])
+                _probe_forms(w, dec, ev, verdict, evaluated, info)
+                for mark in got:
+                    if "state_get" in dec_forms(dec) and mark["iter"] - ev["iter"] > GET_WINDOW_ITERS \
+                            and mark["vt"] - ev["vt"] >= GET_WINDOW_S:
+                        # the don't-care window of state.get() assumes an event is evaluated within it
+                        raise RuntimeError(f"run started {mark['iter'] - ev['iter']} passes after its event: "
+                                           "GET_WINDOW too small")
                 if verdict == "may":
                     w.probe("dontcare_eval")
                 if verdict == "must":
@@ -529,20 +877,73 @@ def oracle(w: World, scn: dict):
     return violations, nontrivial, {"events": len(events), "expected_runs": n_expected, "runs": len(w.marks)}
 
 
+def _change_kind(ev: dict) -> str:
+    return "create" if ev["old"] is None else "delete" if ev["new"] is None else (
+        "attr_only" if ev["old"][0] == ev["new"][0] else "value")
+
+
+def _probe_forms(w: World, dec: dict, ev: dict, verdict: str, evaluated: bool, info: dict) -> None:
+    """Reach probes of the call / method-named-attribute / empty-watch situations."""
+    forms = dec_forms(dec, ev["ent"])
+    change = _change_kind(ev)
+    if "method_call" in forms:
+        if change == "attr_only":
+            w.probe("method_call_attr_only_event")
+        if verdict == "must":
+            w.probe("method_call_expected_run")
+    if "state_get" in forms:
+        if evaluated:
+            w.probe("state_get_evaluated")
+        if verdict == "must":
+            w.probe("state_get_expected_run")
+        if info.get("gets_differ"):
+            w.probe("state_get_timing_dontcare")
+    if "method_named_attr" in forms:
+        if not _has(ev["old"], METHOD_ATTR) and not _has(ev["new"], METHOD_ATTR):
+            w.probe("method_named_attr_absent_event")
+        if info.get("readings_differ"):
+            w.probe("method_named_attr_ambiguous")
+    if dec.get("watch") == [] and decide(dict(dec, watch=None), ev["ent"], ev["old"], ev["new"], ev["model"],
+                                         gmodels=ev["gfutures"])[0] != "no":
+        w.probe("empty_watch_expr_names_changed")
+
+
 def _pattern(dec: dict, ev: dict, ran: bool) -> dict:
     """Signature of a lost/spurious run: shape of the case and which alternative semantics explains it."""
-    change = "create" if ev["old"] is None else "delete" if ev["new"] is None else (
-        "attr_only" if ev["old"][0] == ev["new"][0] else "value")
+    change = _change_kind(ev)
     why = "unexplained"
-    hyps = [("watch_unlisted_undefined_name_raises", {"watch_raise": True})]
+    forms = dec_forms(dec)
+    base = []
+    if dec.get("watch") == []:
+        base.append(("empty_watch_ignored", {"no_watch": True}))
+    if "method_call" in forms or "method_named_attr" in forms:
+        base.append(("method_name_counts_as_changed_at_every_event", {"method_always": True}))
+    if "method_call" in forms:
+        base.append(("str_method_of_unnotified_variable_is_None", {"unnotified_method_none": True,
+                                                                   "notified": ev["notified"]}))
+    if "state_get" in forms:
+        base.append(("dotted_function_preset_to_None", {"get_raises": True}))
+    hyps = []
+    for size in range(1, len(base) + 1):
+        for combo in itertools.combinations(base, size):
+            kwargs = {}
+            for _, kw in combo:
+                kwargs.update(kw)
+            hyps.append(("+".join(label for label, _ in combo), kwargs))
+    hyps.append(("watch_unlisted_undefined_name_raises", {"watch_raise": True}))
     for fut in ev["futures"]:
         hyps.append(("other_var_read_at_eval_time", {"future": fut, "notified": ev["notified"]}))
     for fut in ev["futures"]:
         hyps.append(("other_var_read_at_eval_time+watch_unlisted_undefined_name_raises",
                      {"future": fut, "notified": ev["notified"], "watch_raise": True}))
     for label, kwargs in hyps:
-        verdict, _ = decide(dec, ev["ent"], ev["old"], ev["new"], ev["model"], **kwargs)
+        kwargs = dict(kwargs)
+        hdec = dict(dec, watch=None) if kwargs.pop("no_watch", False) else dec
+        verdict, _ = decide(hdec, ev["ent"], ev["old"], ev["new"], ev["model"], gmodels=ev["gfutures"], **kwargs)
         if (verdict in ("must", "may")) == ran or (verdict == "may"):
             why = label
             break
-    return {"watch": dec.get("watch") is not None, "why": why, "change": change if why == "unexplained" else "*"}
+    sig = {"watch": dec.get("watch") is not None, "why": why, "change": change if why == "unexplained" else "*"}
+    if why == "unexplained" and dec_forms(dec, ev["ent"]):
+        sig["form"] = "+".join(dec_forms(dec, ev["ent"]))
+    return sig
